@@ -4,9 +4,12 @@ package main
 
 import (
 	"crypto/rand"
+	"crypto/sha256"
 	"fmt"
 	"io"
 	"strings"
+	"sync"
+	"time"
 
 	"github.com/gmrtd/gmrtd/cms"
 	"github.com/gmrtd/gmrtd/document"
@@ -135,9 +138,13 @@ func (t *yieldTx) Transceive(cla, ins, p1, p2 int, data []byte, le int, enc []by
 // yieldStatus is a status listener: every callback is a scheduling point; it counts what it is told.
 type yieldStatus struct {
 	n, dgs int
+	onPA   func() // free-running pass: rendezvous right before passive authentication
 }
 
 func (s *yieldStatus) Status(st reader.Status) {
+	if s.onPA != nil && st.Phase == reader.STATUS_PHASE_PASSIVE_AUTHENTICATION {
+		s.onPA()
+	}
 	vs.Yield("status-callback")
 	s.n++
 	if st.DataGroup != 0 {
@@ -152,6 +159,30 @@ func (s *mobileStatus) Status(phase, dg int) {
 	s.n++
 	if dg != 0 {
 		s.dgs++
+	}
+}
+
+// rendezvous lets the parties of a free-running scenario enter their trust store lookups at the same moment
+// (real synchronisation BEFORE the point of interest; everything after it is concurrent). Never used under the
+// cooperative scheduler. A party that does not show up is not waited for longer than the timeout.
+type rendezvous struct {
+	mu      sync.Mutex
+	n, cnt  int
+	release chan struct{}
+}
+
+func newRendezvous(n int) *rendezvous { return &rendezvous{n: n, release: make(chan struct{})} }
+
+func (r *rendezvous) wait() {
+	r.mu.Lock()
+	r.cnt++
+	if r.cnt == r.n {
+		close(r.release)
+	}
+	r.mu.Unlock()
+	select {
+	case <-r.release:
+	case <-time.After(300 * time.Millisecond):
 	}
 }
 
@@ -184,6 +215,13 @@ type scenario struct {
 	// the object's lock, or after the once-only initialisation); the "call <Pool>.<Method>" points are then
 	// left out at sync granularity (they remain covered at statement granularity).
 	privatePool bool
+	// raceOnly: only run by the free-running -race pass (nothing for the outcome oracle to see: the calls are
+	// independent and read-only by contract). These scenarios release several identical calls from a barrier so
+	// that their trust store lookups are truly simultaneous: the race detector is happens-before based, and the
+	// library's own fmt / sync.Pool traffic creates happens-before edges between goroutines, so conflicting
+	// accesses that are milliseconds apart (a verifier finishing before a reader reaches passive authentication)
+	// are invisible to it.
+	raceOnly bool
 }
 
 func guard(name string, f func() string) func() string {
@@ -272,8 +310,20 @@ func scenarios() []*scenario {
 				comb.AddCertPool(other)
 				comb.AddCertPool(shared)
 				chipA, chipB := e.w.NewChip(), e.w.NewChip()
-				ra := reader.NewReader(&yieldStatus{}, iso7816.NewNfcSession(&yieldTx{e, chipA, "transceive-A"}), comb)
-				rb := reader.NewReader(nil, iso7816.NewNfcSession(&yieldTx{e, chipB, "transceive-B"}), shared)
+				stA, stB := &yieldStatus{}, &yieldStatus{}
+				meet := func() {}
+				if vs.Passthrough() {
+					// free-running: all three enter passive authentication (the shared pool lookups) together
+					rv := newRendezvous(3)
+					meet = rv.wait
+					stA.onPA, stB.onPA = rv.wait, rv.wait
+				}
+				ra := reader.NewReader(stA, iso7816.NewNfcSession(&yieldTx{e, chipA, "transceive-A"}), comb)
+				var statusB reader.ReaderStatus // reader B has no listener under the scheduler (keeps the schedule space as before)
+				if vs.Passthrough() {
+					statusB = stB
+				}
+				rb := reader.NewReader(statusB, iso7816.NewNfcSession(&yieldTx{e, chipB, "transceive-B"}), shared)
 				rb.SkipImages()
 				v := verifier.NewVerifier(comb)
 				pw := e.w.Password()
@@ -283,17 +333,85 @@ func scenarios() []*scenario {
 						return c20.ObserveDocEx(d, err) + " " + c20.ObserveApduLog(log)
 					}
 				}
+				before := poolContent(comb)
 				return &instance{threads: [][]call{
 					{{"A.ReadDocument", read(ra)}},
 					{{"B.ReadDocument", read(rb)}},
-					{{"V.Verify", func() string { d, err := v.Verify(e.evid); return c20.ObserveDocEx(d, err) }}},
+					{{"V.Verify", func() string { meet(); d, err := v.Verify(e.evid); return c20.ObserveDocEx(d, err) }}},
 				}, final: func() string {
-					return fmt.Sprintf("A:%s B:%s pool=%d", chipA.Observe(), chipB.Observe(), shared.Count())
+					return fmt.Sprintf("A:%s B:%s pool=%d store-unchanged-by-lookups=%v", chipA.Observe(), chipB.Observe(), shared.Count(), poolContent(comb) == before)
 				}}
 			}},
 		s5("S5", "mobile.PreloadCscaCertPool x3 || mobile.Verifier.Verify (lazily loaded built-in trust store)", false),
 		s5("S5f", "as S5, the Dutch list loader fails: every caller must see the same initialisation error", true),
+		{id: "S6", title: "free-running only: 6 verifier.Verifiers released from a barrier, 3 on one shared CombinedCertPool and 3 directly on the GenericCertPool inside it", raceOnly: true,
+			make: func(e *env) *instance {
+				shared := e.pool()
+				other := &cms.GenericCertPool{}
+				for _, d := range e.w.OtherDER {
+					other.Add(d)
+				}
+				comb := &cms.CombinedCertPool{}
+				comb.AddCertPool(other)
+				comb.AddCertPool(shared)
+				before := poolContent(comb)
+				inst := &instance{final: func() string { return fmt.Sprintf("store-unchanged-by-lookups=%v", poolContent(comb) == before) }}
+				for i := 0; i < 6; i++ {
+					var p cms.CertPool = comb
+					if i >= 3 {
+						p = shared
+					}
+					v := verifier.NewVerifier(p)
+					inst.threads = append(inst.threads, []call{{fmt.Sprintf("V%d.Verify", i), func() string { d, err := v.Verify(e.evid); return c20.ObserveDocEx(d, err) }}})
+				}
+				inst.check = sameResults
+				return inst
+			}},
+		{id: "S7", title: "free-running only: 4 mobile.Verifiers released from a barrier on the (already loaded) built-in trust store", raceOnly: true,
+			make: func(e *env) *instance {
+				if err := mobile.PreloadCscaCertPool(); err != nil {
+					panic(err)
+				}
+				inst := &instance{final: func() string { return fmt.Sprintf("loaders=%v", cms.VerifLoaderCalls()) }}
+				for i := 0; i < 4; i++ {
+					v := mobile.NewVerifier()
+					inst.threads = append(inst.threads, []call{{fmt.Sprintf("M%d.Verify", i), func() string {
+						doc, err := v.Verify(e.evid)
+						return c20.ObserveDocEx(mobile.VerifDocumentEx(doc), err)
+					}}})
+				}
+				inst.check = sameResults
+				return inst
+			}},
 	}
+}
+
+// sameResults: identical independent calls must all return the same (clean) result.
+func sameResults(o c20.Outcome) (string, string) {
+	first := ""
+	for i, c := range o.Calls {
+		r := c[strings.Index(c, ": ")+2:]
+		if i == 0 {
+			first = r
+		}
+		if r != first || !strings.Contains(r, "err=nil") || !strings.Contains(r, "pa=true") {
+			return "independent-calls/different-results", fmt.Sprintf("identical independent calls returned different or failing results: {%s} vs {%s}", first, r)
+		}
+	}
+	if strings.Contains(o.Final, "store-unchanged-by-lookups=false") {
+		return "shared-store/content-changed-by-lookups", "the certificates served by the shared trust store (All()) differ after the lookups"
+	}
+	return "", ""
+}
+
+// poolContent is a digest of what the store serves through its public API.
+func poolContent(p cms.CertPool) string {
+	h := sha256.New()
+	for _, c := range p.All() {
+		h.Write(c.Raw)
+		h.Write([]byte{0})
+	}
+	return fmt.Sprintf("%x", h.Sum(nil)[:8])
 }
 
 func s5(id, title string, fail bool) *scenario {
